@@ -16,7 +16,12 @@ repeating names; connectives whose two operands are groupings of one and the sam
 n = real comparisons on fields of a store that are nil / unset on some rows: a skeleton must select exactly the rows
 its surface semantics gives under the valuation "what the code answers for the atom alone on that row" - `not` is the
 exact complement of its operand (theorems not_selects_complement, selection_is_rowwise, same_reading_different_meaning,
-redundant_parens_many in Properties/C12.v)."""
+redundant_parens_many in Properties/C12.v).
+Stream m (harness c12w5.go): clauses of ONE operator family on SEVERAL symbols of one type with shared literals
+(`s = "x" or sn = "x" or sn = "xy"`, `i >= 1 and j < 9`, ...) over a 64-row store: every 3-clause sequence of every family in
+ALL groupings, longer chains, random skeletons over walks through the pool; oracle as for n, plus the other groupings of
+the same clauses and the same skeleton over opaque atoms (theorems chain_in_any_grouping, chain_regrouping_irrelevant,
+one_clause_decides)."""
 import json
 import os
 import re
@@ -64,6 +69,28 @@ def features(pre):
     return has_not, mixed, and_then_or
 
 
+def pure_chain_key(cf):
+    """N case: (store, atom texts in order, connective) when the skeleton is a chain of ONE connective over all its
+    atoms, each used once in order, possibly cut into parenthesised groups, without `not`; else None"""
+    pre = cf[5]
+    if "!" in pre or ("&" in pre and "|" in pre) or not ("&" in pre or "|" in pre):
+        return None
+    names = cf[6].split(",")
+    leaves = [unhex(h).decode("latin-1") for h in re.findall(r"<([0-9a-f]*)>", pre)]
+    if leaves != names:
+        return None
+    return (cf[2], cf[7], "&" if "&" in pre else "|")
+
+
+CLAUSE = re.compile(r"^((?:anyOf|allOf|count)\([A-Za-z_.]+\)|[A-Za-z_.]+)\s+(.*)$")
+
+
+def same_shape_other_symbol(t1, t2):
+    """two atom texts that are the same operator and literal on different symbols"""
+    m1, m2 = CLAUSE.match(t1), CLAUSE.match(t2)
+    return bool(m1 and m2 and m1.group(2) == m2.group(2) and m1.group(1) != m2.group(1))
+
+
 def show_result(r):
     """<count>:<hex id>,... -> readable"""
     if ":" not in r:
@@ -108,7 +135,7 @@ def main(argv):
         "specification Lang/BoolSurface.v (surface syntax, or-of-ands semantics, spellings)",
         "extraction (ExtrOcamlBasic only) + extraction/c12_driver.ml + drv_common.ml",
         "Go harness cmd/storageharness/c12.go (enumerator of skeletons, spellers, boolean/int symbol tables), c12kw.go (query templates with "
-        "spelling sites, the people/places dataset in a real bbolt file) and this comparison",
+        "spelling sites, the people/places dataset in a real bbolt file), c12w3.go (streams d, l, n), c12w5.go (stream m: atom pool, the twins dataset) and this comparison",
         "hand-written model Lang/WordOps.v (op_negated = the listener's strings.Contains(strings.ToLower(text), \"not\"); norm = token stream up to spelling) "
         "over Lang/LexerFull.v (all token rules as regular expressions; compared with the real lexer on every re-spelling)",
         "ANTLR runtime (ATN interpreter, adaptive prediction): compared on every enumerated skeleton, not verified",
@@ -150,6 +177,18 @@ def main(argv):
     evaluations = 0
     kstats = dict(cases=0, with_word_operator=0, with_negated_word_operator=0)
     nstats = dict(cases=0, with_not=0, rows_where_all_atoms_false=0)
+    mstats = dict(cases=0, clause_sequences_in_several_groupings=0, cases_with_a_row_where_exactly_one_atom_holds=0,
+                  cases_where_neighbouring_clauses_share_operator_and_literal_on_different_symbols=0)
+    # stream m (and n): the cases that are groupings of one and the same pure and- / or-chain of clauses (same atom
+    # texts in the same order, same connective): chain_assoc / chain_regroup say they all select the same rows
+    regroup = {}
+    for case, i in zip(cases, impl):
+        if case.startswith("N "):
+            cf = case.split()
+            k = pure_chain_key(cf)
+            if k is not None:
+                regroup.setdefault(k, []).append((unhex(cf[3]).decode("latin-1"), i.split()[1], case))
+    mstats["clause_sequences_in_several_groupings"] = sum(1 for v in regroup.values() if len(v) > 1)
     lstats = dict(cases=0, max_tokens=0, max_leaves=0)
     for case, i, m in zip(cases, impl, modl):
         cf, fi, fm = case.split(), i.split(), m.split()
@@ -198,20 +237,59 @@ def main(argv):
             distinct.add(case)
             nstats["cases"] += 1
             has_not, mixed, _ = features(pre)
+            if store == "twins":
+                mstats["cases"] += 1
+                mstats["cases_with_a_row_where_exactly_one_atom_holds"] += any(
+                    sum(b[k] == "1" for b in abits) == 1 for k in range(len(abits[0])))
+                mstats["cases_where_neighbouring_clauses_share_operator_and_literal_on_different_symbols"] += any(
+                    same_shape_other_symbol(texts[k], texts[k + 1]) for k in range(len(texts) - 1))
             nil_false = False
             rep = dict(case=case, impl=i, model=m, store=store, query=query, skeleton=skel,
                        atoms=dict(zip(names, texts)), rows=rowids,
                        atom_values_per_row_as_the_code_answers_for_the_atom_alone=dict(zip(texts, abits)),
                        rows_selected_impl=ibits, rows_selected_expected=sbits,
-                       note="dataset: harness c12w3.go c12nRows (n0: no field set, n1: explicit nils, h1/h2: partly set); "
-                            "bit r = row r selected")
+                       note=("dataset: harness c12w5.go c12mOpen (64 rows; s, sn, su run through the product of x / xy / hello / unset, the other "
+                             "field families through the products of their domains; odd rows write explicit nils); bit r = row r selected"
+                             if store == "twins" else
+                             "dataset: harness c12w3.go c12nRows (n0: no field set, n1: explicit nils, h1/h2: partly set); "
+                             "bit r = row r selected"))
             if ibits in ("E", "P"):
                 c.violation("C12:valid-query-rejected" if ibits == "E" else "C12:panic",
                             "valid query %r (store %s) %s" % (query, store, "is rejected" if ibits == "E" else "panics"), rep)
                 continue
             if ibits != sbits:
-                r = next(k for k in range(len(sbits)) if ibits[k] != sbits[k])
+                # the differing row on which the fewest atoms hold (exactly one, when there is such a row)
+                r = min((k for k in range(len(sbits)) if ibits[k] != sbits[k]), key=lambda k: (sum(b[k] == "1" for b in abits), k))
                 vals = ", ".join("%r is %s" % (t, "true" if b[r] == "1" else "false") for t, b in zip(texts, abits))
+                sibs = [(q2, b2) for q2, b2, _ in regroup.get(pure_chain_key(cf), []) if q2 != query]
+                good = [q2 for q2, b2 in sibs if b2 == sbits]
+                good_case = [c2 for q2, b2, c2 in regroup.get(pure_chain_key(cf), []) if q2 != query and b2 == sbits]
+                if good:
+                    # the property's own statement about chains: the same clauses joined by the same connective, grouped
+                    # differently, must select the same rows - and another grouping does select the expected ones
+                    conn = "or" if "|" in pre else "and"
+                    c.violation("C12:chain-regrouping",
+                                "query %r on row %s of store %s (where %s) is %s, expected %s; rows selected %s, expected %s. The same clauses in the same order "
+                                "grouped as %r select exactly the expected rows: the value of an `%s`-chain depends on how its clauses are grouped, it is not "
+                                "the %s of the values its clauses have on the row" % (
+                                    query, rowids[r], store, vals, "true" if ibits[r] == "1" else "false", "true" if sbits[r] == "1" else "false",
+                                    ibits, sbits, good[0], conn, "disjunction" if conn == "or" else "conjunction"),
+                                dict(rep, case=case + "\n" + good_case[0], first_differing_row=rowids[r], atoms_true_on_that_row=[t for t, b in zip(texts, abits) if b[r] == "1"],
+                                     other_groupings_of_the_same_clauses={q2: ("as expected" if b2 == sbits else b2) for q2, b2 in sibs}))
+                    continue
+                proj = fi[3] if len(fi) > 3 else "-"
+                if proj == sbits:
+                    # the code combines the skeleton as written when its atoms are opaque boolean symbols with these very values:
+                    # the result is wrong only because of what the clauses look like - they are not evaluated independently
+                    c.violation("C12:clauses-not-independent",
+                                "query %r on row %s of store %s (where %s) is %s, expected %s; rows selected %s, expected %s. The same skeleton %r over opaque "
+                                "boolean atoms with the values the clauses have on each row selects exactly the expected rows: the connectives are grouped as "
+                                "written, but a clause does not contribute its own value once it stands next to clauses of the same shape" % (
+                                    query, rowids[r], store, vals, "true" if ibits[r] == "1" else "false", "true" if sbits[r] == "1" else "false",
+                                    ibits, sbits, skel),
+                                dict(rep, first_differing_row=rowids[r], atoms_true_on_that_row=[t for t, b in zip(texts, abits) if b[r] == "1"],
+                                     rows_selected_by_the_same_skeleton_over_opaque_atoms=proj))
+                    continue
                 if has_not and not mixed:
                     key = "C12:not-complement"
                     why = "`not` is not the complement of its operand as the code evaluates it on that row"
@@ -307,6 +385,7 @@ def main(argv):
     c.cov["cases"] = len(cases)
     c.cov["stream_k"] = kstats
     c.cov["stream_n"] = nstats
+    c.cov["stream_m"] = mstats
     c.cov["stream_l"] = lstats
     c.cov["distinct_nontrivial"] = len(distinct)
     c.cov["disagreements_checked"] = len(disagreements)
@@ -331,6 +410,11 @@ def main(argv):
                      "stream n: skeletons over real comparisons (71 atoms: = != < <= > >= contains icontains in between null, their not-forms, anyOf/allOf/count/isEmpty; "
                      "string, int, float, datetime, bool, set) on a store whose rows leave fields unset / explicitly nil: n1 = every skeleton over one atom (<= 2 parens, <= 3 nots) x every atom, "
                      "n2 = every two-leaf skeleton with a not, n3 = random over three atoms; oracle per row: surface semantics under the code's own value of each atom on that row. "
+                     "stream m: skeletons over real comparisons of ONE operator family on SEVERAL symbols of one type with shared literals (19 families: string/int/float/datetime "
+                     "= in between / != not-in not-between / < >= <= > / contains icontains / null, bool, anyOf allOf count isEmpty on two set symbols) on a 64-row store holding the full "
+                     "product of the values of the symbols of a family: m1 = every 3-clause sequence of one family (8 symbol patterns x 5 literal patterns x 4 and/or sequences, each form) in ALL "
+                     "3 groupings, m2 = chains of 4-6 clauses plain and grouped, m3 = random skeletons whose clauses are a walk through the pool (next clause: other symbol / form / literal / family); "
+                     "oracle per row as for n; a failing pure chain is compared with the other groupings of the same clauses, every failure with the same skeleton over opaque atoms. "
                      "evaluations = truth-table entries compared; non-trivial = has not/parentheses/mixed connectives/>1 atom/re-spelling; distinct by case text"
                      % (5 if c.thorough else 4))
     idx = sorted(set((0, min(3, len(cases) - 1), len(cases) // 2, len(cases) - 1)))
@@ -338,12 +422,15 @@ def main(argv):
     if st.get("k_atoms_negation_unobservable", 0) or st.get("k_canonical_rejected", 0):
         disagreements.append(("-", "-", "-", "stream k dataset: %s word-operator atoms whose negation is unobservable, %s canonical queries rejected"
                               % (st.get("k_atoms_negation_unobservable"), st.get("k_canonical_rejected"))))
+    if st.get("m_symbol_twins_indistinguishable", 0) or st.get("m_atoms_rejected", 0):
+        disagreements.append(("-", "-", "-", "stream m dataset: %s pairs of atoms that differ in their symbol only are not told apart by the rows, %s atoms rejected"
+                              % (st.get("m_symbol_twins_indistinguishable"), st.get("m_atoms_rejected"))))
     if disagreements and not c.violations:
         case, i, m, what = disagreements[0]
         c.violation("C12:correspondence", "model and implementation differ (%s) on %d cases although the property holds on them, e.g. %s: impl %s model %s"
                     % (what, len(disagreements), case, i, m),
                     dict(correspondence="Lang/Lexer.v + Lang/BoolGrammar.v + Lang/Listener.v vs zitiql lexer/parser + ast listener",
-                         theorems=["precedence_and_over_or", "keyword_case_insensitive", "word_operator_spelling"], case=case, impl=i, model=m), no_input=True)
+                         theorems=["precedence_and_over_or", "keyword_case_insensitive", "word_operator_spelling", "chain_in_any_grouping"], case=case, impl=i, model=m), no_input=True)
     if not proof_ok:
         c.violation("C12:proof", "proof obligation no longer checks: %s" % json.dumps(c.proof_broken)[:600],
                     dict(broken=c.proof_broken), no_input=True)
